@@ -230,14 +230,19 @@ func (st *Symtab) script(assumes []string, goal string, wantModel bool, values .
 		b.WriteString("(set-option :produce-models true)\n")
 	}
 	b.WriteString("(set-logic ALL)\n(declare-sort U 0)\n")
-	st.mu.Lock()
-	for _, name := range st.order {
-		if used[name] {
-			b.WriteString(st.decl[name])
-			b.WriteByte('\n')
+	// declarations of the symbols used (the table is read-only once the
+	// symbolic execution of the unit is over; declarations are independent)
+	names := make([]string, 0, len(used))
+	for t := range used {
+		if _, ok := st.decl[t]; ok {
+			names = append(names, t)
 		}
 	}
-	st.mu.Unlock()
+	sort.Strings(names)
+	for _, name := range names {
+		b.WriteString(st.decl[name])
+		b.WriteByte('\n')
+	}
 	for _, a := range assumes {
 		if a == "true" {
 			continue
